@@ -198,7 +198,8 @@ TABLE = {
     ("consensus::pool::finality_tracker::FinalityTracker::handle_implicitly_finalized", "panic", "panicking::panic"): (1, "source_slot > parent slot: parents come from add_parent (block.slot > parent.slot)"),
     ("consensus::pool::finality_tracker::FinalityTracker::handle_implicitly_finalized", "panic", "panicking::panic_fmt"): (2, SAFETY),
     ("consensus::pool::finality_tracker::FinalityTracker::handle_implicitly_finalized", "panic", "panicking::assert_failed"): (2, SAFETY),
-    ("consensus::pool::finality_tracker::FinalityTracker::mark_fast_finalized", "panic", "panicking::panic"): (1, DBG_WATERMARK),
+    # (no watermark assertion in mark_fast_finalized: it is called for the SECOND tracker-relevant certificate one notar vote can create - Notar, then FastFinal -
+    #  and handling the first may have moved the watermark past the slot: D19, fixed in 88c56c6; C10 O10.1p keeps it out)
     ("consensus::pool::finality_tracker::FinalityTracker::mark_fast_finalized", "panic", "panicking::assert_failed"): (2, SAFETY),
     ("consensus::pool::finality_tracker::FinalityTracker::mark_fast_finalized", "panic", "panicking::panic_fmt"): (1, SAFETY),
     ("consensus::pool::finality_tracker::FinalityTracker::mark_finalized", "panic", "panicking::panic"): (1, DBG_WATERMARK),
